@@ -143,6 +143,49 @@ Theorem C12_source_facts_lock : bbox_facts = bbox_facts_expected.
 Proof. exact bbox_facts_lock. Qed.
 Print Assumptions C12_source_facts_lock.
 
+(* ------------------------------------------------------------------ extension round 4: sub-trees *)
+(* The product clause on the whole FOREST: the main tree and every clip-path / mask / pattern / feImage sub-tree hanging off
+   any node, at every nesting depth (sub-trees of nodes of sub-trees included), each sub-tree relative to its own root
+   (a Group::empty(): identity).  Guarded by the two known classes. *)
+Theorem C12_forest_abs_transform_product : forall n pabs,
+  xhas_use_ts n = false -> xhas_pushed n = false -> xproduct_ok pabs (xthread pabs n) = true.
+Proof. exact forest_product_guarded. Qed.
+Print Assumptions C12_forest_abs_transform_product.
+
+(* KNOWN class pattern_pushed_transform: paint_server.rs push_pattern_transform wraps the converted pattern content into a
+   group with transform = abs_transform = w and leaves the descendants' abs_transform as they were (the TODO in the source).
+   Witness paint-servers/pattern/patternContentUnits=objectBoundingBox.svg: w = scale(160, 70), leaf abs = identity. *)
+Theorem C12_known_pattern_pushed_transform_refuted :
+  exists n, xhas_use_ts n = false /\ xhas_pushed n = true /\ xproduct_ok ts_identity (xthread ts_identity n) = false.
+Proof. exact forest_pushed_refuted. Qed.
+Print Assumptions C12_known_pattern_pushed_transform_refuted.
+
+(* The forest invariant IS the conjunction of the per-node checks the `bbox` correspondence evaluates on a dump (a leaf against
+   its parent group, a group against parent * own transform, a sub-tree root against the identity): no node of the forest
+   escapes, and nothing else is needed. *)
+Theorem C12_forest_product_is_local : forall n pabs,
+  xproduct_ok pabs n = forallb (fun pm => bnode_local_ok (fst pm) (snd pm)) (bflat pabs n).
+Proof. exact forest_product_is_local. Qed.
+Print Assumptions C12_forest_product_is_local.
+
+(* the forest invariant implies the main-tree one of C12_abs_transform_product (sub-trees dropped) *)
+Theorem C12_forest_implies_main : forall n pabs,
+  xhas_pushed n = false -> xproduct_ok pabs (xthread pabs n) = true -> product_ok pabs (thread pabs (xmain n)) = true.
+Proof. exact forest_implies_main. Qed.
+Print Assumptions C12_forest_implies_main.
+
+(* non-vacuity: a clipped group whose clip path has its own clip path and a child with transform, a masked group with an
+   objectBoundingBox wrapper (transform = abs = w under the identity root), a path with a pattern fill *)
+Example C12_ex_forest :
+  let clip2 := xroot [] [XLeaf []] in
+  let clip1 := xroot [] [XGroup GK_Plain (from_row 0 1 (-1) 0 5 5) ts_identity [clip2] [XLeaf []]] in
+  let mask := xroot [] [XGroup GK_Plain (from_row 160 0 0 70 20 40) ts_identity [] [XLeaf []; XLeaf []]] in
+  let patt := xroot [] [XGroup GK_Plain (from_scale 2 2) ts_identity [] [XLeaf []]] in
+  let n := XGroup GK_Plain (from_translate 3 4) ts_identity [clip1; mask] [XLeaf [patt]; XGroup GK_Plain (from_scale 2 3) ts_identity [] [XLeaf []]] in
+  xhas_use_ts n = false /\ xhas_pushed n = false /\ xproduct_ok (from_translate 10 5) (xthread (from_translate 10 5) n) = true /\
+  length (bflat (from_translate 10 5) (xthread (from_translate 10 5) n)) = 16%nat.
+Proof. vm_compute. repeat split. Qed.
+
 (* ------------------------------------------------------------------ non-vacuity *)
 (* F21 witness: a 20x20 picture in <image x="50" y="60" width="40" height="40">: box (50,60)-(90,100) *)
 Example C12_ex_image : image_abs_box ts_identity (from_row 2 0 0 2 50 60) 20 20 = Some (mkbox 50 60 90 100).
